@@ -96,7 +96,11 @@ Proof.
   intros cmd Hcmd k f inp n evs a p Hc V Ef Hrun Hin.
   destruct (command_coverage cyclic_groups groups_ok chunk_size (eq_refl : 0 < chunk_size) cmd k f inp n Hc V)
     as (evs' & Hrun' & Hperm & _).
-  change (run_command cyclic_groups chunk_size empty_runs_once cmd f inp = Some evs') in Hrun'.
+  (* a subnet scan never meets the empty-list case of the chunk loop *)
+  rewrite (run_command_once cyclic_groups chunk_size true empty_runs_once cmd f inp) in Hrun'.
+  2:{ intros He. destruct (class_of_sound cmd k Hc) as [He' _]. rewrite He in He'.
+      assert (k = KPortPacket) by (destruct k; cbn in He'; congruence). subst k.
+      apply (proj1 (vs_ports _ _ _ _ V)). apply (vs_need_ports _ _ _ _ V); [left; reflexivity|exact Ef]. }
   rewrite Hrun in Hrun'. inversion Hrun'; subst evs'.
   destruct (vs_dst _ _ _ _ V Ef) as [_ [pl Hn]].
   apply (spec_denote_subnet_inside k f inp n pl a p Ef Hn).
